@@ -10,7 +10,7 @@ BASE_W = dict(
 )  # fmt: skip
 
 EW = dict(ref=3, tag=5, add=1, lit=1, case=1)
-WIN = dict(agg=4, shift=3, rown=2)
+WIN = dict(agg=4, shift=3, rown=2, wcase=1)
 
 ALL_SUBJECTS = (
     "select", "drop", "rename", "mutate", "filter", "arrange", "slice_head", "group_by", "ungroup",
@@ -34,6 +34,7 @@ PROFILES = {
         mutate_names=[4, 5, 2, 1],
         rename_modes=[3, 3, 2, 1, 2],
         p_odd_names=0.2,
+        p_empty_name=0.15,
         p_summarize_overwrite_group=0.3,
         crash_subjects={},
         core_ops=("src", "select", "mutate", "rename"),
